@@ -35,7 +35,7 @@ def result_word(op, x, y):
 def generate(tier, rng):
     L = lambda l: tok_list([str(c) for c in l])
     maxw = 3 if tier == 'quick' else 5
-    small = [(s, n, f) for s in (True, False) for n in range(1 + 1, maxw + 1) for f in range(0, n - int(s) + 1)] + [(False, 1, 0), (False, 1, 1), (True, 1, 0)]
+    small = [(s, n, f) for s in (True, False) for n in range(1, maxw + 1) for f in range(0, n + 1)]      # every fraction length 0..n_word (n_int = -1 for signed n_frac = n_word)
     for x in small:
         lox, hix = lims(x[0], x[1])
         for y in small:
@@ -56,7 +56,7 @@ def generate(tier, rng):
         op = rng.choice(['truediv', 'floordiv', 'mod'])
         wide = rng.random() < 0.4       # operand words up to 52 bits, as long as the optimal result word stays <= 53
         nx, ny = rng.randint(1 + int(sx), 52 if wide else 24), rng.randint(1 + int(sy), 52 if wide else 24)
-        x = (sx, nx, rng.randint(0, nx - int(sx))); y = (sy, ny, rng.randint(0, ny - int(sy)))
+        x = (sx, nx, rng.randint(0, nx)); y = (sy, ny, rng.randint(0, ny))
         if result_word(op, x, y) > 53:
             continue
         lox, hix = lims(*x[:2]); loy, hiy = lims(*y[:2])
